@@ -1,4 +1,5 @@
 import LyModel.XmlTree.OpaqOk
+import LyModel.XmlTree.OpaqCheck
 import LyModel.XmlTree.Roundtrip
 /-! The independent document reader applied to what the model prints for a forest of opaque nodes (lemmas; the property theorem
     `opaq_document_faithful` is restated in `Props/C12.lean`). -/
@@ -7,30 +8,19 @@ set_option linter.unusedVariables false
 namespace LyModel.XmlTree
 open LyModel LyModel.XmlDoc LyModel.XmlText
 
-/-- what a namespace-aware reader should report for an attribute: (namespace or empty, name, value) -/
-def viewAttr (a : OAttr) : Bytes × Bytes × Bytes := (a.ns.getD [], a.name, a.value)
-
-mutual
-/-- what a namespace-aware reader should report for an opaque node -/
-def oview : ONode → XElem
-  | .mk name _ ns value _ attrs kids => .mk (ns.getD []) name (attrs.map viewAttr) value (oviewList kids)
-def oviewList : List ONode → List XElem
-  | [] => []
-  | n :: r => oview n :: oviewList r
-end
-
 mutual
 /-- well-formedness of the view of an opaque forest (`inDflt`: an ancestor has a namespace, i.e. a default namespace is in
-    scope): names are XML names; an element without namespace has no ancestor with one; attributes are `AttrOk` and pairwise
+    scope; `strict`: elements in no namespace are restricted): names are XML names; if `strict`, an element without namespace
+    has no ancestor with one; attributes are `AttrOk` and pairwise
     different by (namespace, name); value prefix data are consistent and use XML names other than `xmlns` as prefixes; no
     forbidden control characters in values and namespace strings -/
-def ONodeOk (inDflt : Bool) : ONode → Prop
+def ONodeOk (strict inDflt : Bool) : ONode → Prop
   | .mk name _ ns value valPfx attrs kids =>
-    NameOk name ∧ (ns = none → inDflt = false) ∧ (∀ u ∈ ns, NoCtl u) ∧ NoCtl value ∧ PfxDataOk valPfx ∧ (∀ a ∈ attrs, AttrOk a) ∧
-      noDupAttrs (attrs.map viewAttr) = true ∧ consistent (reservedOf valPfx attrs) = true ∧ OListOk (inDflt || ns.isSome) kids
-def OListOk (inDflt : Bool) : List ONode → Prop
+    NameOk name ∧ (ns = none → strict = true → inDflt = false) ∧ (∀ u ∈ ns, NoCtl u) ∧ NoCtl value ∧ PfxDataOk valPfx ∧ (∀ a ∈ attrs, AttrOk a) ∧
+      noDupAttrs (attrs.map viewAttr) = true ∧ consistent (reservedOf valPfx attrs) = true ∧ OListOk strict (inDflt || ns.isSome) kids
+def OListOk (strict inDflt : Bool) : List ONode → Prop
   | [] => True
-  | n :: r => ONodeOk inDflt n ∧ OListOk inDflt r
+  | n :: r => ONodeOk strict inDflt n ∧ OListOk strict inDflt r
 end
 
 theorem resolveAttrs_items (env stEnd : NsStack) (heq : EnvEq env stEnd) : ∀ (items : List Item) (attrs : List OAttr),
@@ -82,51 +72,70 @@ theorem Run.findDefault {R : Reserved} {K : Prop} {st st' : NsStack} {items : Li
     · rw [ih]; rfl
   | attr _ _ _ _ ih => exact ih
 
-theorem nodeDefault_cases' (st : NsStack) (ns : Option Bytes) :
-    (nodeDefault st ns = ([], st) ∧ (ns = none ∨ findDefault st = ns)) ∨
-      ∃ u, ns = some u ∧ nodeDefault st ns = ([Item.decl none u], (none, u) :: st) := by
+theorem nodeDefault_cases' (fx : Fixes) (st : NsStack) (ns : Option Bytes) :
+    (nodeDefault fx st ns = ([], st) ∧ (ns = none ∨ findDefault st = ns)) ∨
+      ∃ u, (ns = some u ∨ (ns = none ∧ u = [])) ∧ nodeDefault fx st ns = ([Item.decl none u], (none, u) :: st) := by
   cases ns with
-  | none => exact Or.inl ⟨rfl, Or.inl rfl⟩
+  | none =>
+    rw [nodeDefault_none]
+    split
+    · rcases nsDefault_cases st [] with h | h
+      · exact Or.inl ⟨h.1, Or.inl rfl⟩
+      · exact Or.inr ⟨[], Or.inr ⟨rfl, rfl⟩, h.1⟩
+    · exact Or.inl ⟨rfl, Or.inl rfl⟩
   | some u =>
-    by_cases h : findDefault st = some u
-    · exact Or.inl ⟨by simp [nodeDefault, nsDefault, h], Or.inr h⟩
-    · exact Or.inr ⟨u, rfl, by simp [nodeDefault, nsDefault, h]⟩
+    rcases nsDefault_cases st u with h | h
+    · exact Or.inl ⟨h.1, Or.inr h.2⟩
+    · exact Or.inr ⟨u, Or.inl rfl, h.1⟩
 
+/-- the default namespace the content of the element sees: the namespace of the element; for an element in no namespace the
+    inherited one, or (repair of F300) none at all -/
 theorem startTag_findDefault (fx : Fixes) (hn : fx.numbered = true) (hr : fx.reserved = true) (st : NsStack) (ns : Option Bytes)
     (value : Bytes) (valPfx : PfxData) (attrs : List OAttr) :
-    findDefault (startTagItems fx st ns value valPfx attrs).2 = match ns with | some u => some u | none => findDefault st := by
+    findDefault (startTagItems fx st ns value valPfx attrs).2 = match ns with
+      | some u => some u
+      | none => if fx.undeclare && defaultInScope st then some [] else findDefault st := by
   rw [startTagItems_eq]
   simp only
   rw [(tagRest_run fx hn hr _ value valPfx attrs).findDefault]
-  rcases nodeDefault_cases' st ns with ⟨h, h2⟩ | ⟨u, rfl, h⟩
-  · rw [h]
-    rcases h2 with rfl | h2
+  cases ns with
+  | none =>
+    rw [nodeDefault_none]
+    simp only
+    split
+    · rename_i hc
+      rcases nsDefault_cases st [] with h | h
+      · rw [h.1]; exact h.2
+      · rw [h.1]; rfl
     · rfl
-    · cases ns with
-      | none => rfl
-      | some u => exact h2
-  · rw [h]; rfl
+  | some u =>
+    simp only [nodeDefault]
+    rcases nsDefault_cases st u with h | h
+    · rw [h.1]; exact h.2
+    · rw [h.1]; rfl
 
 theorem startTag_ok (fx : Fixes) (st : NsStack) (ns : Option Bytes) (value : Bytes) (valPfx : PfxData) (attrs : List OAttr)
     (hst : StackOk st) (hns : ∀ u ∈ ns, NoCtl u) (hpd : PfxDataOk valPfx) (hat : ∀ a ∈ attrs, AttrOk a) :
     (∀ i ∈ (startTagItems fx st ns value valPfx attrs).1, ItemOk i) ∧ StackOk (startTagItems fx st ns value valPfx attrs).2 := by
   rw [startTagItems_eq]
-  have h0 : (∀ i ∈ (nodeDefault st ns).1, ItemOk i) ∧ StackOk (nodeDefault st ns).2 := by
-    rcases nodeDefault_cases' st ns with ⟨h, _⟩ | ⟨u, rfl, h⟩
+  have h0 : (∀ i ∈ (nodeDefault fx st ns).1, ItemOk i) ∧ StackOk (nodeDefault fx st ns).2 := by
+    rcases nodeDefault_cases' fx st ns with ⟨h, _⟩ | ⟨u, hu, h⟩
     · rw [h]; exact ⟨by simp, hst⟩
     · rw [h]
       refine ⟨?_, ?_⟩
       · intro i hi
         simp only [List.mem_singleton] at hi
         subst hi
-        exact hns u rfl
+        rcases hu with rfl | ⟨_, rfl⟩
+        · exact hns u rfl
+        · intro b hb; cases hb
       · intro q u' hm
         rcases List.mem_cons.mp hm with hm | hm
         · simp at hm
         · exact hst q u' hm
   have h1 := attrItems_ok fx (reservedOf valPfx attrs) attrs _ h0.2 hat
-  have hrest : (∀ i ∈ (tagRest fx (nodeDefault st ns).2 value valPfx attrs).1, ItemOk i) ∧
-      StackOk (tagRest fx (nodeDefault st ns).2 value valPfx attrs).2 := by
+  have hrest : (∀ i ∈ (tagRest fx (nodeDefault fx st ns).2 value valPfx attrs).1, ItemOk i) ∧
+      StackOk (tagRest fx (nodeDefault fx st ns).2 value valPfx attrs).2 := by
     unfold tagRest
     split
     · exact h1
